@@ -71,7 +71,18 @@ class ExcelType:
         return Number(float(Number.cast(self)) / ovalue)
 
     def __pow__(self, other):
-        return Number(Number.cast(self).value ** Number.cast(other).value)
+        base, exponent = Number.cast(self).value, Number.cast(other).value
+        try:
+            result = base ** exponent
+        except ZeroDivisionError:
+            # 0 raised to a negative power
+            raise xlerrors.DivZeroExcelError()
+        except OverflowError:
+            raise xlerrors.NumExcelError()
+        if isinstance(result, complex):
+            # negative base with a fractional exponent
+            raise xlerrors.NumExcelError()
+        return Number(result)
 
     def __and__(self, other):
         # Highjacking bitwise "and" to implement logical "and"
